@@ -352,7 +352,7 @@ class C28(Property):
         "ResponseSurface reproduction is demanded at all points only when the design matrix has full "
         "column rank (exact rational rank), else at the training points",
     ]
-    level = 'proof'
+    level = 'partial'
     level_text = (
         "Lean theorems over an arbitrary (ordered) field about the executable model: the design-row "
         "order is the natural monomial order and least squares on exact quadratic data returns the "
